@@ -127,6 +127,7 @@ def _run_one(scn, dev, acc, mons, expect=None):
     if r:
         from . import runners
         ex, finds = runners.RUNNERS[r](scn, dev, expect, mons)
+        ex.scn = scn      # witnesses replay the whole relational scenario
         acc.add_exec(ex, finds)
         return ex
     ex = harness.run_execution(scn, dev, expect=expect)
